@@ -751,4 +751,6 @@ def r3t(F):
     return r
 
 
-RULES = [r1, r1h, r2, r3, r3s, r3t, r4, r84, r85]
+from . import c10 as _c10
+
+RULES = [r1, r1h, r2, r3, r3s, r3t, r4, r84, r85, _c10.r31]
